@@ -545,6 +545,47 @@ where
                 }
             }
         }
+        // (vi) histories with the public fields re-assigned between steps: step; positions / step_size / n_leapfrog
+        // replaced; step — each step is checked against the reference for the ACTUAL position, step size and L
+        if c.l >= 1 && c.eps <= 0.9 && c.n <= 3 {
+            for variant in 0..3 {
+                let mut s = mk();
+                let m: Vec<Vec<f64>> = (0..c.n).map(|i| (0..c.d).map(|k| [0.5, -0.5, 2.0][(i + k) % 3]).collect()).collect();
+                let case = json!({"backend": name, "target": rt.kind, "d": c.d, "eps": c.eps, "L": c.l, "n_chains": c.n, "field_mutation_history": variant});
+                ctx.transitions(2);
+                let hi = if f32_backend { 1.0 - 2f64.powi(-24) } else { 1.0 - 2f64.powi(-53) };
+                // first step is rejected for variant 0 (u high) and accepted otherwise
+                let u0 = if variant == 0 { hi } else { 1e-30 };
+                if instrumented_step(&mut s, Some(&m), Some(&vec![u0; c.n])).is_err() {
+                    continue;
+                }
+                let (mut eps2, mut l2) = (c.eps, c.l);
+                match variant {
+                    0 => {
+                        let np: Vec<Vec<f64>> = starts.iter().map(|r| r.iter().map(|x| -0.6 * x + 0.2).collect()).collect();
+                        s.positions = t2::<B>(&np);
+                    }
+                    1 => {
+                        eps2 = c.eps * 0.5;
+                        s.step_size = f(eps2);
+                    }
+                    _ => {
+                        l2 = c.l + 1;
+                        s.n_leapfrog = l2;
+                    }
+                }
+                match instrumented_step(&mut s, Some(&m), Some(&vec![0.5; c.n])) {
+                    Ok(r) => {
+                        let before = ctx.n_violations();
+                        check_step(ctx, &rt, &r, eps2, l2, &tol, Some(&vec![0.5; c.n]), &case, f32_backend);
+                        if ctx.n_violations() == before {
+                            ctx.outcome("field-mutation histories ok", 1);
+                        }
+                    }
+                    Err(e) => ctx.violation(Violation::new("C02:panic", format!("HMC::step panicked after re-assigning a public field: {e}"), case)),
+                }
+            }
+        }
         // (v) three-step histories with forced accept / reject patterns: every step is checked from the ACTUAL current position
         if c.l >= 1 && c.eps <= 2.5 {
             let hi = if f32_backend { 1.0 - 2f64.powi(-24) } else { 1.0 - 2f64.powi(-53) };
